@@ -231,6 +231,7 @@ theorem synced_applyUpdate {e r : Eng} (h : Synced e r) (u : Update) (hu : Event
             simp [hx] at hse; simp [hy] at hsr; subst hse; subst hsr
             exact ⟨(h.positions i s0 r0 hx hy).1, rfl⟩
       · simp [hi] at hse hsr; exact h.positions i se sr hse hsr
+    | other => exact h.positions i se sr hse hsr
   · intro i c
     cases u with
     | order j op =>
@@ -270,6 +271,7 @@ theorem synced_applyUpdate {e r : Eng} (h : Synced e r) (u : Update) (hu : Event
       rw [orderState_applyUpdate_other _ _ _ _ (by intro i op; simp),
         orderState_applyUpdate_other _ _ _ _ (by intro i op; simp)]
       exact h.orders i c
+    | other => exact h.orders i c
 
 /-- `generate_algo_orders` on the engine only keeps the replica in sync -/
 theorem synced_generate {e r : Eng} (h : Synced e r) (algoC : List CancelReq) (algoO : List OpenReq)
